@@ -152,7 +152,33 @@ class Conserve:
         return self
 
     def is_reader(self, fd):
-        """takes the token cursor: its first parameter receives .peek/.hasNext/next()..."""
+        """takes the token cursor: its first parameter receives .peek/.hasNext/next()..., or is handed on as the
+        first argument of a function that does (transitively)"""
+        cache = self.__dict__.setdefault('_reader_cache', None)
+        if cache is None:
+            cache = self._reader_cache = {}
+            fns = list(self.reader.functions.values())
+            for f in fns:
+                cache[f.fq] = self._is_reader_direct(f)
+            changed = True
+            while changed:
+                changed = False
+                for f in fns:
+                    if cache[f.fq] or not f.params():
+                        continue
+                    p = f.params()[0]
+                    for n in ast.walk(f.node):
+                        if isinstance(n, ast.Call) and isinstance(n.func, ast.Name) and n.args and isinstance(n.args[0], ast.Name) \
+                                and n.args[0].id == p and n.func.id in self.reader.functions \
+                                and cache.get(self.reader.functions[n.func.id].fq):
+                            cache[f.fq] = True
+                            changed = True
+                            break
+        if fd.fq in cache:
+            return cache[fd.fq]
+        return self._is_reader_direct(fd)
+
+    def _is_reader_direct(self, fd):
         ps = fd.params()
         if not ps:
             return False
